@@ -27,7 +27,7 @@ func init() {
 			"proceeds to rate limiting. The single exception is the FORMERR answer for a malformed ECS option, which " +
 			"C05 demands and which is written before any access decision.",
 		NotCovered: "what the urlfilter engines behind IsBlockedHost / blockedHostsEng match; effects inside third-party libraries reached from the access decision.",
-		Rules: map[string]string{"C10-R28": "entries of the address indexes are deleted only by the functions that check whose entry it is (shared with C14-R2): a linked address that moved to another device is not left linked to nobody", "C10-R27": "the device ID in an EDNS option is found whatever other options precede or follow it (shared with C03-R11): a profile's access settings are not bypassed by a resolver that adds another local option in front", "C10-R26": "the TLS server name is matched against the device domains without regard to letter case (table shared with C03-R15), and every refresh stores the file cache only after a full synchronisation (table shared with C14-R8): a client is not judged without its profile (whose access rules would reject it) because of how it spelled the server name or because a restart loaded a partial snapshot", "C10-R24": "the client address of a DoH request is the peer address of the connection (http.Request.RemoteAddr): remoteAddr and what it calls read no request header, so no client-chosen header decides which address the access rules judge", "C10-R23": "a full synchronisation clears and refills the profile database's indexes in one critical section (shared with C14-R3): no lookup sees an empty database in between and treats a client of a profile that rejects it as anonymous", "C10-R21": "the profile map of the profile database is written by the synchronisation (setProfiles) only: no other function, in particular not the request path (CreateAutoDevice), stores a profile object of its own there, which would put an older access configuration back after a newer one was synchronised", "C10-R22": "geoip.ipToCacheKey: the location cache keys an IPv4 address by its first three bytes (the /24 it belongs to) and an IPv6 address by its first seven: two clients share a cached location (and its ASN, which access rules test) only inside one such network", "C10-R20": "agdnet.NormalizeQueryDomain keeps the root name \".\" as it is (decided on the argument itself, before any normalisation empties it) and normalises every other name", "C10-R19": "the name handed to the global blocked-name rules (access.Interface.IsBlockedHost) is the question name normalised by agdnet.NormalizeQueryDomain, as for the profile's rules: the root stays \".\" (the empty string that NormalizeDomain makes of it matches no rule)", "C10-R18": "geoip.File.Refresh clears both location caches after it has installed the new databases (shared with C05-R10)", "C10-R16": "no call in package dnsserver passes same-typed arguments crossed (local and remote address of a connection, by the names of the getters that produced them)", "C10-R17": "builder.initAccess creates and assigns the global access manager on every successful path, empty lists included (a nil *access.Global wrapped in the service's interface field panics on the first request)", "C10-R14": "conversion loops of backendpb and filecachepb leave no element out silently (a skipped element has been reported or failed a conversion)", "C10-R15": "GeoIP data is looked up and cached under one read lock, so a refresh cannot leave a location of the previous database in the cache (shared with C05-R7)", "C10-R13": "newRequestInfo always stores the finder's answer; methods of the shared access objects do not write to their receiver", "C10-RC": "class rules (error chains, shadowed results, character classes, crossed arguments, pool constructors, array pools, loop completeness, loop-carried buffers, replacing setters, complete clones, Grow arithmetic, pooled-buffer escape, sorted searches, fresh decode targets, per-iteration objects, whole-message copies, codec guards) over the packages this property rests on", "C10-R12": "agdnet.NormalizeDomain is ToLower(TrimSuffix(name, \".\")); hand-written ASCII classes use inclusive boundaries", "C10-R11": "early (default) returns of the profile converters are guarded only by nil / Enabled tests of the input, never by its contents", "C10-R10": "codecs return a nil sub-message only for a nil input; access.Global keeps the whole configured subnet list and IsBlockedIP is a membership test on it",
+		Rules: map[string]string{"C10-R30": "agd.Server.HasAddr examines every bound address and interface prefix: returns reached from its loops yield only constants, so a request to any of the server's own addresses is not taken for one to a dedicated address (and dropped without the access rules being asked)", "C10-R29": "every server of a group gets a device finder built for that server (shared with C03-R12): the profile whose access settings apply is looked up with the server's own protocol, linked-IP and bind-data settings", "C10-R28": "entries of the address indexes are deleted only by the functions that check whose entry it is (shared with C14-R2): a linked address that moved to another device is not left linked to nobody", "C10-R27": "the device ID in an EDNS option is found whatever other options precede or follow it (shared with C03-R11): a profile's access settings are not bypassed by a resolver that adds another local option in front", "C10-R26": "the TLS server name is matched against the device domains without regard to letter case (table shared with C03-R15), and every refresh stores the file cache only after a full synchronisation (table shared with C14-R8): a client is not judged without its profile (whose access rules would reject it) because of how it spelled the server name or because a restart loaded a partial snapshot", "C10-R24": "the client address of a DoH request is the peer address of the connection (http.Request.RemoteAddr): remoteAddr and what it calls read no request header, so no client-chosen header decides which address the access rules judge", "C10-R23": "a full synchronisation clears and refills the profile database's indexes in one critical section (shared with C14-R3): no lookup sees an empty database in between and treats a client of a profile that rejects it as anonymous", "C10-R21": "the profile map of the profile database is written by the synchronisation (setProfiles) only: no other function, in particular not the request path (CreateAutoDevice), stores a profile object of its own there, which would put an older access configuration back after a newer one was synchronised", "C10-R22": "geoip.ipToCacheKey: the location cache keys an IPv4 address by its first three bytes (the /24 it belongs to) and an IPv6 address by its first seven: two clients share a cached location (and its ASN, which access rules test) only inside one such network", "C10-R20": "agdnet.NormalizeQueryDomain keeps the root name \".\" as it is (decided on the argument itself, before any normalisation empties it) and normalises every other name", "C10-R19": "the name handed to the global blocked-name rules (access.Interface.IsBlockedHost) is the question name normalised by agdnet.NormalizeQueryDomain, as for the profile's rules: the root stays \".\" (the empty string that NormalizeDomain makes of it matches no rule)", "C10-R18": "geoip.File.Refresh clears both location caches after it has installed the new databases (shared with C05-R10)", "C10-R16": "no call in package dnsserver passes same-typed arguments crossed (local and remote address of a connection, by the names of the getters that produced them)", "C10-R17": "builder.initAccess creates and assigns the global access manager on every successful path, empty lists included (a nil *access.Global wrapped in the service's interface field panics on the first request)", "C10-R14": "conversion loops of backendpb and filecachepb leave no element out silently (a skipped element has been reported or failed a conversion)", "C10-R15": "GeoIP data is looked up and cached under one read lock, so a refresh cannot leave a location of the previous database in the cache (shared with C05-R7)", "C10-R13": "newRequestInfo always stores the finder's answer; methods of the shared access objects do not write to their receiver", "C10-RC": "class rules (error chains, shadowed results, character classes, crossed arguments, pool constructors, array pools, loop completeness, loop-carried buffers, replacing setters, complete clones, Grow arithmetic, pooled-buffer escape, sorted searches, fresh decode targets, per-iteration objects, whole-message copies, codec guards) over the packages this property rests on", "C10-R12": "agdnet.NormalizeDomain is ToLower(TrimSuffix(name, \".\")); hand-written ASCII classes use inclusive boundaries", "C10-R11": "early (default) returns of the profile converters are guarded only by nil / Enabled tests of the input, never by its contents", "C10-R10": "codecs return a nil sub-message only for a nil input; access.Global keeps the whole configured subnet list and IsBlockedIP is a membership test on it",
 			"C10-R1": "decision tables of isBlockedByNets, matchASNs, IsBlocked, isBlockedByAccess",
 			"C10-R2": "Wrap closure: location stored before the decision; blocked edge silent; other edge proceeds",
 			"C10-R4": "question names are normalised before they are matched against access rules",
@@ -37,6 +37,10 @@ func init() {
 }
 
 func runC10(c *an.Ctx) {
+	c.Floor("C10-R30", 1)
+	c10HasAddrChecksAll(c, "C10-R30")
+	c.Floor("C10-R29", 1)
+	c.Borrow("C10-R29", runC03, func(o an.Obligation) bool { return o.Rule == "C03-R12" })
 	c.Floor("C10-R28", 1)
 	c.Borrow("C10-R28", runC14, func(o an.Obligation) bool { return o.Rule == "C14-R2" })
 	c.Floor("C10-R27", 1)
